@@ -93,6 +93,27 @@ def parses (area : List Nat) : List (Nat × Nat × Nat) :=
   cands.flatMap fun (e, k) =>
     (List.range (e + 1)).filterMap fun s => if WellFormedAt area s e k then some (s, e, k) else none
 
+/-- the DOS area `try_from` looks at: the dwords before `e_lfanew` (dword 15 of the image, in bytes) -/
+def areaOf (image : List Nat) : List Nat := image.take (image.getD 15 0 / 4)
+
+/-- `DanS^k, k, k, k` at dword `t` -/
+def HeaderAt (area : List Nat) (k t : Nat) : Prop :=
+  area[t]? = some (dans ^^^ k) ∧ area[t + 1]? = some k ∧ area[t + 2]? = some k ∧ area[t + 3]? = some k
+
+instance (area : List Nat) (k t : Nat) : Decidable (HeaderAt area k t) := by
+  unfold HeaderAt; infer_instance
+
+/-- no block that reads `DanS^k, k, k, k` strictly between the header (at `s`) and the trailer (before
+`e`), at even distance from the trailer — such a block is indistinguishable from the header for a
+reader scanning backwards from `Rich`. -/
+def NoFake (area : List Nat) (s e k : Nat) : Prop :=
+  ∀ t, s < t → t + 6 ≤ e → (e - t) % 2 = 0 → ¬ HeaderAt area k t
+
+/-! ### dwords and bytes -/
+
+/-- the byte buffer that holds the dwords `ws` (little endian, file order) -/
+def bytesOf (ws : List Nat) : Bytes := ((stubBytes ws).map UInt8.ofNat).toArray
+
 /-! ### iterators: the reference is a double-ended queue of the records -/
 
 inductive Op
@@ -137,5 +158,40 @@ def Iter.step (it : Iter) : Op → Out (Res × Iter)
 def Iter.run : Iter → List Op → Out (List Res)
   | _, [] => .ok []
   | it, o :: os => it.step o >>= fun p => Iter.run p.2 os >>= fun rs => .ok (p.1 :: rs)
+
+/-! ### the round trip (C16 b) -/
+
+/-- Typing and placement conditions of the round trip: the stub contains the 16 dwords of the DOS
+header, everything is in range for its Rust type, and `e_lfanew` (dword 15 of the stub) points at
+the first byte after the padding (only `e_lfanew / 4` matters). -/
+def Admissible (stub : List Nat) (rs : List Record) (pad : Nat) : Prop :=
+  16 ≤ stub.length ∧ (∀ w ∈ stub, w < 4294967296) ∧ (∀ r ∈ rs, r.WF) ∧
+  stub.getD 15 0 / 4 = stub.length + (2 * rs.length + 6) + pad
+
+/-- The round trip for one input: the image whose DOS area is the documented layout with the
+checksum as key (followed by anything: `rest` = NT headers, sections) parses; the stub, the key,
+the records and the recomputed checksum are the ones that went in, and encoding the decoded
+records into a destination of the original size reproduces the original dwords. -/
+def RoundTrips (stub : List Nat) (rs : List Record) (pad : Nat) (rest : List Nat) : Prop :=
+  ∃ r, tryFrom (Spec.layout stub (Spec.checksum stub rs) rs pad ++ rest) = .ok r ∧
+    r.dosStub = stub ∧
+    r.xorKey = .ok (Spec.checksum stub rs) ∧
+    (∃ it, r.records = .ok it ∧ it.collect = rs) ∧
+    r.checksum = .ok (Spec.checksum stub rs) ∧
+    (∃ t, r.encode rs (2 * rs.length + 6 + pad) =
+      .ok (.done t (Spec.header (Spec.checksum stub rs) rs ++ List.replicate pad 0)))
+
+/-- The same round trip on the buffer the Rust code sees: the BYTES of that image (little endian),
+followed by up to three bytes that do not fill a dword, at address `base`, read through
+`Pe::rich_structure` (`ofImage`: the `&[u8]` → `&[u32]` reinterpretation, then `try_from`). -/
+def RoundTripsBytes (stub : List Nat) (rs : List Record) (pad : Nat) (rest : List Nat) (tail : Bytes)
+    (base : Nat) : Prop :=
+  ∃ r, ofImage ⟨bytesOf (Spec.layout stub (Spec.checksum stub rs) rs pad ++ rest) ++ tail, base⟩ = .ok r ∧
+    r.dosStub = stub ∧
+    r.xorKey = .ok (Spec.checksum stub rs) ∧
+    (∃ it, r.records = .ok it ∧ it.collect = rs) ∧
+    r.checksum = .ok (Spec.checksum stub rs) ∧
+    (∃ t, r.encode rs (2 * rs.length + 6 + pad) =
+      .ok (.done t (Spec.header (Spec.checksum stub rs) rs ++ List.replicate pad 0)))
 
 end Pelite.Rich
